@@ -26,7 +26,8 @@ PROBES = ["read_cached_then_config_changed", "key_deleted_after_read", "emodulus
           "viscosity_changed_while_temperature_present", "temp_feature_replaced", "plugin_read", "unavailable_read_raises",
           "child_after_refresh", "file_backed", "scenario_switch", "ml_score_replaced", "temperature_zero", "grandchild_backing",
           "temp_feature_tail_changed", "temp_set_through_child", "child_read_without_explicit_refresh",
-          "temp_input_the_recipe_refuses", "computation_refused_input", "setting_changed_back"]
+          "temp_input_the_recipe_refuses", "computation_refused_input", "setting_changed_back",
+          "other_measurement_written_to_the_same_path"]
 COMPONENTS = {"real": ["dclab RTDCBase.__getitem__/__contains__, AncillaryFeature (hash, availability, priorities)",
                        "af_emodulus/af_basic/af_fl_max_ctc/af_image_contour/af_ml_class, PlugInFeature, temporary features",
                        "RTDC_Dict / RTDC_HDF5 / RTDC_Hierarchy"],
@@ -226,6 +227,9 @@ class World:
                     "bad": r.random() < 0.15}
         if x < 0.60 and self.child is not None:
             return {"k": "refresh"}
+        if x < 0.56 and self.path is not None and self.child is None:
+            # another measurement is written to the same path and opened with the same settings
+            return {"k": "rewrite", "dseed": r.randrange(1 << 30)}
         if x < 0.70:
             return {"k": "avail", "feat": r.choice(READ_FEATS)}
         if self.k.get("big"):
@@ -353,6 +357,33 @@ class World:
             ctx.log("a", f"temp {name}", seeds.short_hash(vals))
             self.mark_edit("temp " + name)
             return
+        if k == "rewrite":
+            if self.path is None or self.child is not None:
+                return
+            from dclab.rtdc_dataset.writer import RTDCWriter
+            newdata = make_data(op["dseed"], self.n, self.k["with_temp"], self.k["with_images"], self.k.get("ml_innate", True))
+            old_base = self.base
+            self.data = newdata
+            try:
+                old_base.close()      # (its settings stay readable)
+            except Exception:
+                pass
+            import os
+            tmpp = self.path.with_name("c06_new.rtdc")
+            with RTDCWriter(tmpp, mode="reset") as hw:
+                hw.store_metadata({"setup": {"software version": "ShapeIn 2.2.2.4"}, "experiment": {"sample": "s", "run index": 1}})
+                for f, v in self.data.items():
+                    hw.store_feature(f, v)
+            os.replace(tmpp, self.path)     # (handles that are still open keep the old file)
+            fr, _ = self.fresh()      # (built from the path, with the current settings and temporary features)
+            self.base = fr
+            # what was read from the old file is read again from the new one
+            self.pending_reads = [f for f in sorted(self.read_before) if f in READ_FEATS or f == "emodulus"][:4]
+            self.read_before = set()
+            ctx.probe("other_measurement_written_to_the_same_path")
+            ctx.log("a", "rewrite", seeds.short_hash([self.data[f] for f in sorted(self.data)]))
+            self.mark_edit("rewrite")
+            return
         if k == "refresh":
             if self.child is not None:
                 with ctx.sut("C06.rejuvenate"):
@@ -471,6 +502,24 @@ class World:
                                                  f"calculation={dict(calc)}", sig=sig)
             if feat in ("c06_a", "c06_b"):
                 ctx.probe("plugin_read")
+        if feat in ("fl1_max_ctc", "fl2_max_ctc") and ok:
+            # independent of every cache: the correction applied directly to the stored maxima with the current matrix elements
+            from dclab.features.fl_crosstalk import correct_crosstalk
+            ctd = {}
+            for i_ in (1, 2, 3):
+                for j_ in (1, 2, 3):
+                    key_ = f"crosstalk fl{i_}{j_}"
+                    if i_ != j_ and key_ in calc:
+                        ctd[f"ct{i_}{j_}"] = calc[key_]
+            ctx.checked()
+            with warnings.catch_warnings():
+                warnings.simplefilter("ignore")
+                # (the stored maxima as the dataset delivers them: files hold them as integers)
+                exp_c = correct_crosstalk(fl1=np.asarray(ds["fl1_max"][:]), fl2=np.asarray(ds["fl2_max"][:]), fl3=0,
+                                          fl_channel=int(feat[2]), **ctd)
+            if not np.array_equal(np.asarray(exp_c), val, equal_nan=True):
+                ctx.violation("C06.value.direct", f"{feat} differs from the crosstalk correction of the stored fl1_max/fl2_max with the "
+                                                  f"current matrix elements (last edit: {self.last_edit}); calculation={dict(calc)}", sig=sig)
         if feat == "emodulus":
             ctx.checked()
             with warnings.catch_warnings():
